@@ -111,6 +111,10 @@ impl Packer {
         if &fimg.file_system != super::FS_NAME {
             return Err(Box::new(Error::FileTypeMismatch));
         }
+        // a file image from outside can lack the type byte that decides how to unpack it
+        if fimg.fs_type.is_empty() {
+            return Err(Box::new(Error::FileTypeMismatch));
+        }
         Ok(())
     }
     /// the end of file mark of a ProDOS file is 3 bytes long
